@@ -1,30 +1,21 @@
 (* The set family inside the command dispatch of Mem/Exec.v: for the fourteen set command names,
    one step of [Exec.exec] IS [SetsProofs.sets_step] -- so every theorem about [sets_step] is a
    theorem about the model the differential check runs.
-   (This file is the only one of the family that depends on the order of [Exec.families]: the
-   families listed before [sets_dispatch] must not claim a set command name.) *)
-Require Import Base.Bytes Base.GoInt Base.Reply Mem.Types Mem.Inv Mem.Strings Mem.Lists Mem.Sets.
+   The proof does not depend on which families [Exec.families] lists nor on their order: for
+   each of the fourteen concrete names, [dispatch families] reduces by computation -- every
+   family other than [sets_dispatch] is an [if is n (B "...")] chain that answers None on that
+   name -- to what [sets_dispatch] answers.  (It breaks, as it should, only when a family listed
+   before [sets_dispatch] claims a set command name.) *)
+Require Import Base.Bytes Base.GoInt Base.Reply Mem.Types Mem.Inv Mem.Sets.
 Require Import Mem.Exec Mem.SetsProofs.
 Local Open Scope Z_scope.
 
-Lemma dispatch_skip (fs1 : list family) f fs2 d now nowms n args hint res :
-  (forall g, In g fs1 -> g d now nowms n args hint = None) ->
-  f d now nowms n args hint = Some res ->
-  dispatch (fs1 ++ f :: fs2) d now nowms n args hint = res.
-Proof.
-  induction fs1 as [|g fs1 IH]; intros H E; cbn.
-  - rewrite E. reflexivity.
-  - rewrite (H g (or_introl eq_refl)). apply IH; [|exact E].
-    intros g' Hg'. apply H. right. exact Hg'.
-Qed.
-
-(* no earlier family answers to a set command name *)
-Lemma earlier_families_decline n d now nowms args hint :
+Lemma dispatch_set_name n d now nowms args hint :
   In n sets_names ->
-  strings_dispatch d now nowms n args hint = None /\ lists_dispatch d now nowms n args hint = None.
+  sets_dispatch d now nowms n args hint = Some (dispatch families d now nowms n args hint).
 Proof.
   intros H. cbn in H.
-  repeat (destruct H as [<-|H]; [split; reflexivity|]). destruct H.
+  repeat (destruct H as [<-|H]; [reflexivity|]). destruct H.
 Qed.
 
 Theorem exec_is_sets_step d now nowms c args hint r d' :
@@ -33,12 +24,113 @@ Theorem exec_is_sets_step d now nowms c args hint r d' :
    sets_step d now nowms (lower c) (c :: args) hint = Some (r, d')).
 Proof.
   intros Hn. unfold exec, exec_cmd, sets_step.
-  destruct (sets_dispatch (purge d now) now nowms (lower c) (c :: args) hint) as [res|] eqn:E.
-  - assert (X : dispatch families (purge d now) now nowms (lower c) (c :: args) hint = res).
-    { change families with ([strings_dispatch; lists_dispatch] ++ sets_dispatch :: []).
-      apply dispatch_skip; [|exact E].
-      destruct (earlier_families_decline (lower c) (purge d now) now nowms (c :: args) hint Hn) as [A1 A2].
-      intros g [<-|[<-|[]]]; assumption. }
-    rewrite X. split; [intros ->; reflexivity|intros H; inversion H; reflexivity].
-  - exfalso. revert E. apply sets_names_handled. exact Hn.
+  rewrite (dispatch_set_name (lower c) (purge d now) now nowms (c :: args) hint Hn).
+  split; [intros ->; reflexivity|intros H; inversion H; reflexivity].
 Qed.
+
+(* ------------------------------------------------------------------ the value invariant over all families
+   [sets_ok] (every stored set duplicate-free and non-empty) is preserved by [exec] -- purge, then
+   whichever family answers -- as soon as every family of [Exec.families] keeps it.
+   [sets_dispatch] does (SetsProofs.sets_dispatch_sets_ok); a family that never stores a set it
+   did not find in the database does ([sets_from], toolkit below).  The hypothesis
+   [Forall family_keeps_sets families] is left to the integration, exactly as
+   ZSetsCompose.exec_keeps_zsets leaves [Forall family_keeps_zsets families]. *)
+Definition family_keeps_sets (f : family) : Prop :=
+  forall d now nowms n args hint r d',
+    db_wf d -> sets_ok d -> f d now nowms n args hint = Some (r, d') -> sets_ok d'.
+
+Lemma sets_dispatch_keeps_sets : family_keeps_sets sets_dispatch.
+Proof. intros d now nowms n args hint r d' _ OK H. eapply sets_dispatch_sets_ok; eassumption. Qed.
+
+Definition family_keeps_wf (f : family) : Prop :=
+  forall d now nowms n args hint r d', db_wf d -> f d now nowms n args hint = Some (r, d') -> db_wf d'.
+
+Lemma dispatch_keeps_sets fs :
+  Forall family_keeps_sets fs ->
+  forall d now nowms n args hint, db_wf d -> sets_ok d ->
+    sets_ok (snd (dispatch fs d now nowms n args hint)).
+Proof.
+  induction fs as [|f r IH]; intros F d now nowms n args hint W O; [exact O|].
+  apply Forall_cons_iff in F as [Ff Fr]. cbn [dispatch].
+  destruct (f d now nowms n args hint) as [[rp d']|] eqn:E.
+  - cbn [snd]. eapply Ff; eassumption.
+  - apply IH; assumption.
+Qed.
+
+Lemma dispatch_keeps_wf fs :
+  Forall family_keeps_wf fs ->
+  forall d now nowms n args hint, db_wf d -> db_wf (snd (dispatch fs d now nowms n args hint)).
+Proof.
+  induction fs as [|f r IH]; intros F d now nowms n args hint W; [exact W|].
+  apply Forall_cons_iff in F as [Ff Fr]. cbn [dispatch].
+  destruct (f d now nowms n args hint) as [[rp d']|] eqn:E.
+  - cbn [snd]. eapply Ff; eassumption.
+  - apply IH; assumption.
+Qed.
+
+Theorem exec_keeps_sets_ok d now nowms args hint :
+  Forall family_keeps_sets families -> db_wf d -> sets_ok d ->
+  sets_ok (snd (exec d now nowms args hint)).
+Proof.
+  intros F W O. unfold exec, exec_cmd.
+  pose proof (sets_ok_purge d now O) as O0. pose proof (db_wf_purge d now W) as W0.
+  destruct args as [|name rest]; [exact O0|]. apply dispatch_keeps_sets; assumption.
+Qed.
+
+Theorem exec_keeps_wf d now nowms args hint :
+  Forall family_keeps_wf families -> db_wf d -> db_wf (snd (exec d now nowms args hint)).
+Proof.
+  intros F W. unfold exec, exec_cmd. pose proof (db_wf_purge d now W) as W0.
+  destruct args as [|name rest]; [exact W0|]. apply dispatch_keeps_wf; assumption.
+Qed.
+
+(* any sequence of commands of any family, each with its clock and observed reply *)
+Definition run_exec (prog : list (Z * Z * list bytes * reply)) (d : db) : db :=
+  fold_left (fun d c => let '(now, nowms, args, hint) := c in snd (exec d now nowms args hint)) prog d.
+
+Theorem run_exec_invariants prog :
+  Forall family_keeps_wf families -> Forall family_keeps_sets families ->
+  forall d, db_wf d -> sets_ok d -> db_wf (run_exec prog d) /\ sets_ok (run_exec prog d).
+Proof.
+  intros Fw Fs. unfold run_exec.
+  induction prog as [|[[[now nowms] args] hint] r IH]; intros d W O; [split; assumption|].
+  cbn [fold_left]. apply IH; [apply exec_keeps_wf|apply exec_keeps_sets_ok]; assumption.
+Qed.
+
+(* ---- toolkit: a command that stores no set it did not find keeps the invariant ---- *)
+Definition sets_from (d d' : db) : Prop :=
+  forall k s, db_get d' k = Some (VSet s) -> exists k0, db_get d k0 = Some (VSet s).
+
+Lemma sets_from_ok d d' : sets_from d d' -> sets_ok d -> sets_ok d'.
+Proof.
+  intros F O k v H. destruct v; try exact I. destruct (F k s H) as [k0 H0]. exact (O k0 _ H0).
+Qed.
+Lemma sets_from_refl d : sets_from d d.
+Proof. intros k s H. exists k. exact H. Qed.
+Lemma sets_from_trans d1 d2 d3 : sets_from d1 d2 -> sets_from d2 d3 -> sets_from d1 d3.
+Proof. intros F1 F2 k s H. destruct (F2 k s H) as [k0 H0]. exact (F1 k0 s H0). Qed.
+Lemma sets_from_set d k v :
+  (forall s, v = VSet s -> exists k0, db_get d k0 = Some (VSet s)) -> sets_from d (db_set d k v).
+Proof.
+  intros Hv k1 s. rewrite db_get_set. destruct (bytes_eqb k1 k).
+  - intros H. inversion H. apply Hv. assumption.
+  - intros H. exists k1. exact H.
+Qed.
+Lemma sets_from_del d k : sets_from d (db_del d k).
+Proof.
+  intros k1 s. rewrite db_get_del. destruct (bytes_eqb k1 k); [discriminate|].
+  intros H. exists k1. exact H.
+Qed.
+Lemma sets_from_set_ttl d k t : sets_from d (db_set_ttl d k t).
+Proof. unfold db_set_ttl. destruct (amem k (kv d)); intros k1 s H; exists k1; exact H. Qed.
+Lemma sets_from_del_ttl d k : sets_from d (db_del_ttl d k).
+Proof. intros k1 s H. exists k1. exact H. Qed.
+Lemma sets_from_purge d now : sets_from d (purge d now).
+Proof.
+  intros k s. rewrite db_get_purge. destruct (expired d now k); [discriminate|].
+  intros H. exists k. exact H.
+Qed.
+Lemma sets_from_family (f : family) :
+  (forall d now nowms n args hint r d', f d now nowms n args hint = Some (r, d') -> sets_from d d') ->
+  family_keeps_sets f.
+Proof. intros H d now nowms n args hint r d' _ O E. eapply sets_from_ok; [eapply H; exact E|exact O]. Qed.
